@@ -108,7 +108,7 @@ class Flow:
         self._reft = None
 
     # ------------------------------------------------------------ origins
-    def origin(self, x, depth=10, _seen=None):
+    def origin(self, x, depth=24, _seen=None):
         """Origin tree of an Operand or Place (see module doc of rules for node kinds)."""
         body = self.body
         if x is None:
@@ -137,6 +137,14 @@ class Flow:
             idx = tuple(e for e in place.proj if e != "*" and e[0] in ("ix", "ci", "sub"))
             if idx:
                 names = names + ("[]",)
+            if base[0] == "agg" and base[1] == "tuple" and names and names[0].isdigit() and int(names[0]) < len(base[2]) and not idx:
+                inner = base[2][int(names[0])]          # (a, b).0 is a
+                rest = names[1:]
+                if not rest:
+                    return inner
+                if inner[0] == "param":
+                    return ("param", inner[1], inner[2] + rest)
+                return ("proj", inner, rest)
             if base[0] == "param":
                 return ("param", base[1], base[2] + names)
             if base[0] == "proj":
@@ -280,7 +288,19 @@ class Flow:
         """Follow single-def copy/move chains to the underlying local."""
         p = op_or_place.place if isinstance(op_or_place, Operand) else op_or_place
         seen = set()
-        while p is not None and p.is_local() and p.local not in seen:
+        while p is not None and p.local not in seen:
+            if not p.is_local():
+                # `(a, b).0` / `S { f: a, .. }.f` of a value built in place (a helper returning a tuple that was expanded into its caller):
+                # the component is the operand the aggregate was built from
+                base = self.root_local(Place({"l": p.local})) if p.local not in seen else None
+                defs = self.body.defs.get(base.local, []) if (base is not None and base.is_local()) else []
+                if len(p.proj) == 1 and p.proj[0] != "*" and p.proj[0][0] == "f" and len(defs) == 1 and defs[0][1] != "term" and \
+                        defs[0][2].rv.rv == "aggregate" and defs[0][2].rv.agg in ("tuple", "adt") and p.proj[0][1] < len(defs[0][2].rv.ops) and \
+                        defs[0][2].rv.ops[p.proj[0][1]].place is not None:
+                    seen.add(p.local)
+                    p = defs[0][2].rv.ops[p.proj[0][1]].place
+                    continue
+                break
             seen.add(p.local)
             defs = self.body.defs.get(p.local, [])
             if len(defs) != 1:
